@@ -270,3 +270,18 @@ theorem UnrecognizedFields_eq (exclude : Nat) (d : Dec) (out : Bytes) :
 end D
 end GoTie
 end Pico
+
+namespace Pico.GoTie.D
+open Pico Pico.Dec
+
+/-- message.go `Unmarshal(data, msg)` as translated: a fresh decoder on `data`, `Loop(msg.Decode)`,
+the latched error is the result -/
+theorem Unmarshal_eq {σ} (data : Bytes) (decode : DecM σ) (s : σ) :
+    GoSrc.Decoder.Unmarshal data decode s
+      = (do let r ← Dec.loop decode (Dec.new data) s; pure (r.2, r.1.err)) := by
+  unfold GoSrc.Decoder.Unmarshal
+  simp only [Loop_eq]
+  have : ({ Dec.new [] with cur := { (Dec.new []).cur with buffer := data } } : Dec) = Dec.new data := rfl
+  rw [this]
+
+end Pico.GoTie.D
